@@ -16,6 +16,7 @@ CHILD = os.path.join(os.path.dirname(os.path.dirname(os.path.abspath(__file__)))
 BEHAVIOURS = ["well_behaved", "exit_at:0", "exit_at:1", "exit_at:2", "ignore_term", "no_read", "flood", "close_stdout", "close_stdin", "slow_start", "unstartable"]
 EXIT_PATHS = ["normal", "exception", "outerCancel", "timeoutAround"]
 MOMENTS = ["beforeFirstMessage", "requestInFlight", "afterResponse"]
+EXTRA_SCENARIOS = [{"beh": b, "path": p, "moment": "bigWritesQueued"} for b in ("no_read", "well_behaved", "ignore_term") for p in EXIT_PATHS]
 
 
 def proc_state(pid):
@@ -90,6 +91,12 @@ def run_scenario(sc):
                 await rs.receive()
         if moment == "beforeFirstMessage":
             pass
+        elif moment == "bigWritesQueued":
+            # more output than the pipe and the write buffer can absorb (a child that never reads)
+            from chuk_mcp.protocol.messages.json_rpc_message import JSONRPCNotification
+            for i in range(8):
+                ws.send_nowait(JSONRPCNotification(jsonrpc="2.0", method="notifications/message", params={"level": "info", "data": "x" * 100000, "n": i}))
+            await anyio.sleep(0.05)
         elif moment == "requestInFlight":
             async def req():
                 try:
@@ -180,3 +187,31 @@ def run_scenario(sc):
     sc.pop("tg", None)
     sc.pop("t_exit", None)
     return evs
+
+
+def run_scenario_isolated(sc, limit=20.0):
+    """run one scenario in its own interpreter with a wall-clock limit: a shutdown that never
+    returns is an observation (hung), not a hang of the check"""
+    import json
+    import signal
+    import subprocess
+    env = dict(os.environ)
+    p = subprocess.Popen([sys.executable, "-B", "-m", "harness.drivers.lifecycle_drv", json.dumps(sc)], stdout=subprocess.PIPE, stderr=subprocess.DEVNULL, env=env, start_new_session=True, text=True)
+    try:
+        out, _ = p.communicate(timeout=limit)
+        return json.loads(out.strip().splitlines()[-1])
+    except subprocess.TimeoutExpired:
+        try:
+            os.killpg(p.pid, signal.SIGKILL)
+        except ProcessLookupError:
+            pass
+        p.wait()
+        return [{"e": "Entered", "t": 0.0}, {"e": "ExitBegin", "path": sc["path"], "moment": sc["moment"], "t": 0.0}, {"e": "Hung", "t": limit},
+                {"e": "ChildState", "s": "running"}, {"e": "FdDelta", "n": 0}, {"e": "Pending", "kind": "none"}]
+    except Exception as e:
+        return {"error": "%s: %s" % (type(e).__name__, e)}
+
+
+if __name__ == "__main__":
+    import json
+    print(json.dumps(run_scenario(json.loads(sys.argv[1]))))
